@@ -167,7 +167,7 @@ func runC10(r *Run) {
 	r.Borrow("C13", map[string]string{"C13.close": "C10.agentclose", "C13.terminal": "C10.agentterminal"})
 
 	// ---- rollback in Start
-	rb := r.Rule("C10.rollback", "in Start every path from a successful registration to a return of a non-nil error passes the client delete (so a failed Start never leaves a live handler)", 1)
+	rb := r.Rule("C10.rollback", "in Start every path from a successful registration to a return of a non-nil error passes the client delete (so a failed Start never leaves a live handler) and, once the agent was armed, the delete confirmed that the entry was still registered (otherwise the transaction was completed meanwhile and Start must not fail); Start removes/stops only what this very call registered", 1)
 	{
 		fn := m.Start
 		var reg *ssa.Call
@@ -180,6 +180,17 @@ func runC10(r *Run) {
 			rb.Fail("registration in Start", "not found")
 		} else {
 			idx := errorResultIndex(fn)
+			var dels, agentStarts []*ssa.Call
+			eachInstr(fn, func(b *ssa.BasicBlock, i int, in ssa.Instruction) {
+				if ci, ok := in.(*ssa.Call); ok {
+					if callsFn(ci, m.Del) {
+						dels = append(dels, ci)
+					}
+					if ci.Call.IsInvoke() && ci.Call.Method.Name() == "Start" {
+						agentStarts = append(agentStarts, ci)
+					}
+				}
+			})
 			q := &PathQuery{P: p, Fn: fn, From: reg, K: k}
 			q.Step = func(in ssa.Instruction, deferred bool, st uint64, c *PathCtx) (uint64, bool) {
 				if callsFn(in, m.Del) {
@@ -201,10 +212,59 @@ func runC10(r *Run) {
 				if st&1 == 0 && !rep[ret] {
 					rep[ret] = true
 					rb.ViolationPath(fn, instrPos(ret), "error return without rollback", "Start returns an error but the transaction stays in the client table: a later message with that ID invokes a handler whose Start failed", c.Witness(fn, ret))
+					return
+				}
+				// once the agent knows the transaction (armed: its Start returned nil) a tick, a response
+				// or Close can complete it at any moment; an error may then be reported only if this call
+				// itself took the registration back - the delete must have reported that it found the entry
+				armed := false
+				for _, ac := range agentStarts {
+					if c.NilState(ac) == +1 {
+						armed = true
+					}
+				}
+				if !armed {
+					return
+				}
+				confirmed := false
+				for _, d := range dels {
+					key, pol := k.condKey(d)
+					if v, known := c.Known(key); known && v == pol {
+						confirmed = true
+					}
+				}
+				if !confirmed && !rep[ret] {
+					rep[ret] = true
+					rb.ViolationPath(fn, instrPos(ret), "error return after an unconfirmed rollback", "the transaction was armed in the agent, so a timer tick, a response or Close may already have completed it (handler invoked) when the write fails; Start reports an error without knowing that its own delete still found the entry: the handler is invoked although Start failed, and Do returns without waiting for it (its pooled waiter is recycled while marked processed)", c.Witness(fn, ret))
 				}
 			}
 			q.Run()
 			rb.Instance(fnName(fn), true, map[string]interface{}{"fn": fnName(fn), "error_paths_after_registration": n})
+			// the converse: Start removes or stops a transaction only if this very call registered it (a
+			// handler-less Start or an indication registers nothing; a transaction of another call that
+			// carries the same ID must stay in flight)
+			nRoll := 0
+			repI := map[ssa.Instruction]bool{}
+			q2 := &PathQuery{P: p, Fn: fn, K: k}
+			q2.Step = func(in ssa.Instruction, deferred bool, st uint64, c *PathCtx) (uint64, bool) {
+				if in == ssa.Instruction(reg) {
+					return st | 1, false
+				}
+				isStop := false
+				if ci, ok := in.(*ssa.Call); ok && ci.Call.IsInvoke() && ci.Call.Method.Name() == "Stop" {
+					isStop = true
+				}
+				if callsFn(in, m.Del) || isStop {
+					nRoll++
+					if st&1 == 0 && !repI[in] {
+						repI[in] = true
+						rb.ViolationPath(fn, instrPos(in), "rollback without registration", "Start removes/stops the transaction with the message's ID on a path on which this call registered nothing (no handler): an in-flight transaction of another call that carries the same ID loses its handler and never completes", c.Witness(fn, in))
+					}
+				}
+				return st, false
+			}
+			q2.Run()
+			rb.Instance(fnName(fn)+"|rollback only of own registration", true, map[string]interface{}{"fn": fnName(fn), "rollback_sites_on_paths": nRoll})
 		}
 	}
 	rb.Done()
